@@ -99,14 +99,16 @@ CHECKS = {
     "C10": dict(
         text="Coq theorems C10_chunking (for EVERY partition of a byte string the incremental line buffer hands out exactly the lines of the whole string with exact offsets; its assertion never fires), "
              "C10_index_chunk_invariant and C10_index_bytes_chunk_invariant (the index and its serialized bytes depend only on the concatenation), C10_parse_serialize / C10_serialize_parse_serialize "
-             "(reading a serialized index back gives the same tables, for every index whose entries fit their fields). The index creator, the .symindex layout and the lookup "
-             "through an index are modelled; a straightforward reading of the .sym text (Spec/BreakpadText.v) is the specification of lookups. Tied to samply-symbols by generated .sym files fed in many partitions "
+             "(reading a serialized index back gives the same tables, for every index whose entries fit their fields), C10_stored_index_lookups (lookups through the stored index = lookups through the index itself), "
+             "C10_lookup_agrees_with_text (for EVERY well-formed text below 4 GiB and EVERY address the lookup through the index - binary search, FUNC block read back through offset and length, ordered searches for the "
+             "inline chain and the line record, FILE / INLINE_ORIGIN strings through the index - equals the straightforward reading of the text) and C10_end_to_end (any chunking, stored index, agreement with the text). "
+             "The index creator, the .symindex layout and the lookup through an index are modelled; Spec/BreakpadText.v is the specification of lookups. Tied to samply-symbols by generated .sym files fed in many partitions "
              "(1-byte chunks, cuts inside line endings, random), parse/serialize round trip, stored-index vs self-indexed lookups, and lookups compared in Coq with the text specification, the model and the model's index bytes. "
              "F-C10 (INLINE_ORIGIN inside a FUNC block) was found, fixed and stays in corpus/C10.",
-        note="Proved: the chunking clauses and the parse/serialize round trip (table part; the model of parse_symindex_file is tied by reading the implementation's index bytes back). Checked by the correspondence run but not proved: "
-             "'lookup through the index = reading of the text' (compared on every generated file). "
-             "Trusted: the Coq transcription of the nom tokenizers; stable-sort model of sort_unstable (files with duplicate addresses/indices are not compared).",
-        technique="Coq proof (refinement of a byte-at-a-time specification by the slice-based line buffer, induction over chunks and fuel) + differential correspondence run with a text-level specification evaluated by vm_compute",
+        note="All four clauses are proved over the models (chunk invariance, parse/serialize round trip, stored = self-indexed lookups, lookup = reading of the text on well-formed files below 4 GiB). "
+             "The models of the creator, of parse_symindex_file and of the lookup path are hand-written and tied by the correspondence run (index bytes, tables read back, every lookup result). "
+             "Trusted: the Coq transcription of the nom tokenizers; stable-sort model of sort_unstable (files with duplicate addresses/indices are outside wf_text and are only compared with the model).",
+        technique="Coq proof (refinement of a byte-at-a-time specification by the slice-based line buffer; closed form of the creator's fold over lines; sorted-search / plain-search equivalences; induction over lines, chunks and fuel) + differential correspondence run with a text-level specification evaluated by vm_compute",
         design="4/C10"),
     "C07": dict(
         text="Coq theorems C07_shape_and_truth (for every request with valid module indices - any number of jobs, repeated / unknown / malformed-id / unused modules, modules shared "
